@@ -166,6 +166,7 @@ m = {
  "engines": [
    {"name": "coq", "path": "coq/", "serves_properties": [c["property_id"] for c in checks], "kind_free_text": "Coq 8.16.1 development: executable model + property theorems (props/Cxx.v)"},
    {"name": "srcfacts", "path": "tools/srcfacts/", "serves_properties": [c["property_id"] for c in checks], "kind_free_text": "Go AST translator regenerating coq/gen/GenFacts.v on every run"},
+   {"name": "lockskel", "path": "tools/lockskel/", "serves_properties": ["C13"], "kind_free_text": "Go AST translator regenerating coq/gen/GenSkel.v (lock/access skeleton of four source files) on every run"},
    {"name": "harness", "path": "harness/", "serves_properties": [c["property_id"] for c in checks], "kind_free_text": "Go correspondence harness: runs the real implementation, writes Coq case files, direct property oracles"},
  ],
  "checks": checks,
